@@ -488,6 +488,98 @@ class C05(Property):
         return findings, {"cli_dispatch_runs": len(jobs), "cli_dispatch_sat_calls_compared": ncalls, "cli_dispatch_combinations": len(combos),
                           "cli_dispatch_frameworks": len(fws)}
 
+    # ---- one query under every configuration of the command line (C06) ----
+    def config_matrix(self, ctx, rng):
+        """each (framework, problem, argument) is run with --encoding {default, aux_var, exp, hybrid} x {embedded solver, kissat as external
+        process} x {with, without certificate}: the status (first stdout line; for SE: whether an extension exists) must be the same in
+        all 16 runs, and every printed answer is judged"""
+        tier, runner = ctx["tier"], ctx["runner"]
+        crust = os.path.join(common.REPO_TARGET, "release", "crustabri")
+        kissat = "/usr/local/bin/kissat"
+        backends = [None] + ([kissat] if os.path.exists(kissat) else [])
+        d = runner.dir
+        fws = dispatch_frameworks(rng, "quick")[:6]
+        for _ in range(6 if tier == "quick" else 120):
+            n, atts = gen.gadget_union(rng, 8) if rng.random() < 0.5 else gen.random_framework(rng, 7)
+            if n:
+                fws.append((n, atts))
+        jobs = []
+        for fi, (n, atts) in enumerate(fws):
+            path = os.path.join(d, "cfg_%d.af" % fi)
+            open(path, "w").write("p af %d\n" % n + "".join("%d %d\n" % (a + 1, b + 1) for a, b in atts))
+            for prob in rng.sample(PROBLEMS, 8 if tier == "quick" else 21):
+                t, sem = prob.split("-")
+                arg = rng.randrange(n) if t != "SE" else None
+                for enc in [None, "aux_var", "exp", "hybrid"]:
+                    for be in backends:
+                        for cert in (False, True):
+                            cmd = [crust, "solve", "-f", path, "-p", prob, "--logging-level", "off"]
+                            if arg is not None:
+                                cmd += ["-a", str(arg + 1)]
+                            if cert:
+                                cmd += ["-c"]
+                            if enc:
+                                cmd += ["--encoding", enc]
+                            if be:
+                                cmd += ["--external-sat-solver", be, "--external-sat-solver-opt=-q"]
+                            jobs.append(dict(cmd=cmd, key=(fi, prob, arg), n=n, atts=atts, t=t, sem=sem, enc=enc, be=be, cert=cert, arg=arg, path=path))
+
+        def run(job):
+            try:
+                pr = subprocess.run(job["cmd"], stdout=subprocess.PIPE, stderr=subprocess.PIPE, timeout=120)
+                return (pr.returncode, pr.stdout.decode(errors="replace"))
+            except subprocess.TimeoutExpired:
+                return (None, "")
+        with ThreadPoolExecutor(max_workers=16) as ex:
+            results = list(ex.map(run, jobs))
+        findings = []
+        blocks = []
+        status = {}
+        for k, (job, (rc, out)) in enumerate(zip(jobs, results)):
+            shown = " ".join(job["cmd"])
+            cfg = "enc=%s backend=%s cert=%d" % (job["enc"] or "default", "external" if job["be"] else "embedded", job["cert"])
+            if rc != 0:
+                findings.append(Finding("input", None, "exit status %s under configuration %s: %s" % (rc, cfg, shown[-150:]), "cli-config/%s-%s · non-zero exit" % (job["t"], job["sem"]), {"cmd": shown}))
+                continue
+            lines = out.split("\n")
+            if lines and lines[-1] == "":
+                lines = lines[:-1]
+            t = job["t"]
+
+            def dense(ws):
+                return ",".join(str(int(x) - 1) for x in ws) if ws else "[]"
+            try:
+                if t == "SE":
+                    st = "NO" if lines == ["NO"] else "EXT"
+                    ans = "ans SE ext=NONE members=1" if lines == ["NO"] else "ans SE ext=%s members=1" % dense(lines[0].split(" ")[1:])
+                else:
+                    st = lines[0]
+                    w = lines[1].split(" ")[1:] if len(lines) == 2 else None
+                    ans = "ans ACC status=%s cert=%s members=1" % (lines[0], ("NONE" if job["cert"] else "-") if w is None else dense(w))
+            except (IndexError, ValueError):
+                findings.append(Finding("input", None, "unparsable stdout %r under %s" % (out[:80], cfg), "cli-config/%s-%s · malformed stdout" % (job["t"], job["sem"]), {"cmd": shown}))
+                continue
+            status.setdefault(job["key"], []).append((st, cfg, shown))
+            jsem = "CO" if (t == "DC" and job["sem"] == "PR") else job["sem"]
+            blocks.append("case m%d solve\nfw n=%d labels=- ids=- atts=%s\nquery sem=%s enc=- task=%s cert=%d args=%s\n%s\nunchanged 1\nend\n" % (
+                k, job["n"], ",".join("%d>%d" % pq for pq in job["atts"]), jsem, t, 1 if (job["cert"] and t != "SE") else 0,
+                "-" if job["arg"] is None else str(job["arg"]), ans))
+        _, model = runner.driver("".join(blocks))
+        for k, job in enumerate(jobs):
+            for v in model.get("m%d" % k, []):
+                if v.startswith("verdict BAD"):
+                    shown = " ".join(job["cmd"])
+                    findings.append(Finding("input", None, "wrong answer printed for %s-%s (enc=%s, %s backend): %s | %s" % (job["t"], job["sem"], job["enc"] or "default", "external" if job["be"] else "embedded", v[12:], shown[-160:]),
+                                            "cli-config/%s-%s · %s" % (job["t"], job["sem"], v[12:]), {"cmd": shown, "stdout": results[k][1][:200], "file": open(job["path"]).read()}))
+        for key, sts in status.items():
+            if len(set(s for s, _, _ in sts)) > 1:
+                a = sts[0]
+                b = next(x for x in sts if x[0] != a[0])
+                findings.append(Finding("input", None, "%s: status %s under (%s) but %s under (%s) | %s" % (key[1], a[0], a[1], b[0], b[1], b[2][-150:]),
+                                        "cli-config/%s · status depends on the configuration" % key[1], {"cmd_a": a[2], "cmd_b": b[2], "file": open(a[2].split(" -f ")[1].split(" ")[0]).read()}))
+        return findings, {"cli_config_matrix_runs": len(jobs), "cli_config_matrix_queries": len(status), "cli_config_matrix_frameworks": len(fws),
+                          "cli_config_matrix_external_backend": bool(len(backends) > 1)}
+
     # ---- search for a concrete failing input after a broken dispatch correspondence ----
     def search_after_dispatch_break(self, ctx, rng, dispatch_findings):
         import re
